@@ -197,7 +197,12 @@ func c01GenExtra(s Src, o c01Opts) []string {
 	if o.Input >= 3 {
 		n := 1 + s.Intn(2)
 		for i := 0; i < n; i++ {
-			out = append(out, resToText(genAnyResource(s, smallGen)))
+			o := smallGen
+			if s.Prob(25) {
+				// contained slots, some of them holding something else than a ContainedResource
+				o.Contained, o.MisAny, o.Force = true, 50, []string{"contained"}
+			}
+			out = append(out, resToText(genAnyResource(s, o)))
 		}
 	}
 	return out
@@ -264,46 +269,6 @@ var c01Terms = func() []string {
 	return out
 }()
 
-var c01KindLits = func() map[string][]string {
-	m := map[string][]string{}
-	for _, v := range poolAll {
-		if l, ok := v.lit(); ok && v.isSystem() {
-			k := v.K
-			if k == "Integer" || k == "Decimal" {
-				m["num"] = append(m["num"], l)
-			}
-			m[k] = append(m[k], l)
-		}
-	}
-	m["Integer"] = append(m["Integer"], "(0 - 2147483647 - 1)", "(0 - 1)", "(0 - 2147483647)")
-	m["num"] = append(m["num"], "(0 - 2147483647 - 1)", "(0 - 1)", "(0 - 1.5)", "(1/3)", "0.0000000001")
-	return m
-}()
-
-// c01KindTerms: boundary literals of the kind of a well-typed example term (nil when
-// the example is not a literal).
-func c01KindTerms(example string) []string {
-	switch {
-	case example == "":
-		return nil
-	case example[0] == '\'':
-		return c01KindLits["String"]
-	case example[0] == '@' && strings.HasPrefix(example, "@T"):
-		return c01KindLits["Time"]
-	case example[0] == '@' && strings.Contains(example, "T"):
-		return c01KindLits["DateTime"]
-	case example[0] == '@':
-		return c01KindLits["Date"]
-	case example[0] >= '0' && example[0] <= '9' && strings.Contains(example, "'"):
-		return c01KindLits["Quantity"]
-	case example[0] >= '0' && example[0] <= '9' && strings.Contains(example, "."):
-		return c01KindLits["num"]
-	case example[0] >= '0' && example[0] <= '9':
-		return c01KindLits["Integer"]
-	}
-	return nil
-}
-
 var c01FnNames = func() []fnInfo {
 	fs := tableFuncs()
 	// names outside the table, to exercise resolution failures
@@ -329,12 +294,19 @@ func c01GenFn(s Src) c01FnCase {
 	if directed {
 		if ts := c01KindTerms(spec.Recv); ts != nil {
 			c.Recv = pickOne(s, ts)
+			if spec.Recv[0] == '\'' && s.Prob(40) {
+				c.Recv = quoteFP(genComposedString(s))
+			}
 		}
 	}
 	for i := 0; i < n; i++ {
 		a := pickOne(s, c01Terms)
 		if directed && i < len(spec.Args) {
 			if ts := c01KindTerms(spec.Args[i]); ts != nil {
+				if spec.Args[i][0] == '\'' && s.Prob(30) {
+					c.Args = append(c.Args, quoteFP(genComposedString(s)))
+					continue
+				}
 				c.Args = append(c.Args, pickOne(s, ts))
 				continue
 			}
